@@ -34,7 +34,7 @@ class PyprojectTomlParser(BaseParser):
 
         if poetry_data:
             poetry_dependencies = [
-                f"{name}{version}"
+                _poetry_requirement(name, version)
                 for name, version in poetry_data.get("dependencies", {}).items()
                 if name != "python"
             ]
@@ -48,3 +48,21 @@ class PyprojectTomlParser(BaseParser):
             dependencies=set(project_dependencies + poetry_dependencies),
             py_versions=[version] if version else [],
         )
+
+
+def _poetry_requirement(name: str, constraint) -> str:
+    """
+    A `[tool.poetry.dependencies]` entry as a requirement string: the constraint may be
+    a table (`{version = "^1.0", extras = [...]}`), a bare version (`"1.2.3"`), `"*"`,
+    or use poetry's `~` operator, none of which is PEP 508 syntax as it stands.
+    """
+    if isinstance(constraint, dict):
+        constraint = constraint.get("version", "")
+    constraint = str(constraint).strip()
+    if constraint in ("", "*"):
+        return name
+    if constraint[0].isdigit():
+        return f"{name}=={constraint}"
+    if constraint.startswith("~") and not constraint.startswith("~="):
+        return f"{name}~={constraint[1:].strip()}"
+    return f"{name}{constraint}"
